@@ -631,7 +631,8 @@ def load_hs5(vc, clock, iso):
     stubs = {'datetime': StubDatetimeModule, 'asyncio.get_running_loop': lambda: StubLoop(clock),
              'format_iso8601': iso.format, 'parse_iso8601': iso.parse}
     ld = {n: vc.load(PROG, f'HandlerState.{n}', stubs=stubs)
-          for n in ('finished', 'sleeping', 'awakened', 'from_storage', 'from_scratch', 'for_storage', 'as_in_storage')}
+          for n in ('finished', 'sleeping', 'awakened', 'from_storage', 'from_scratch', 'for_storage', 'as_in_storage', 'as_active',
+                    'with_purpose')}
 
     class HS(progression.HandlerState):
         finished = property(lambda self: ld['finished'].fn(self))
@@ -640,6 +641,8 @@ def load_hs5(vc, clock, iso):
 
         def for_storage(self): return ld['for_storage'].fn(self)
         def as_in_storage(self): return ld['as_in_storage'].fn(self)
+        def as_active(self): return ld['as_active'].fn(self)
+        def with_purpose(self, purpose): return ld['with_purpose'].fn(self, purpose)
 
         @classmethod
         def from_storage(cls, record, *, basetime): return ld['from_storage'].fn(cls, record, basetime=basetime)
@@ -660,12 +663,15 @@ def _same_moment(a, b):
     return Eq(a.t, b.t)
 
 
-@harness('G5', targets=[f'{PROG}.HandlerState.for_storage', f'{PROG}.HandlerState.as_in_storage', f'{PROG}.HandlerState.from_scratch'],
+_G5_TRUSTED = ['format_iso8601/parse_iso8601 as a pair: parse(format(t)) == t, format is a function of the moment (bounded check G4 on '
+               'the real isoformat/iso8601.parse_date)', 'datetime arithmetic as real arithmetic; loop.time() is the ghost clock']
+
+
+@harness('G5', targets=[f'{PROG}.HandlerState.for_storage', f'{PROG}.HandlerState.as_in_storage', f'{PROG}.HandlerState.from_scratch',
+                        f'{PROG}.HandlerState.as_active', f'{PROG}.HandlerState.with_purpose'],
          props=['C02', 'C16', 'C14'],
-         clauses=['record_fields', 'record_is_json', 'as_in_storage_drops_nones', 'round_trip', 'reload_is_stable', 'from_scratch'],
-         canaries=['canary.record_has_no_nones', 'canary.never_finished'],
-         trusted=['format_iso8601/parse_iso8601 as a pair: parse(format(t)) == t, format is a function of the moment (bounded check G4 on '
-                  'the real isoformat/iso8601.parse_date)', 'datetime arithmetic as real arithmetic; loop.time() is the ghost clock'])
+         clauses=['record_fields', 'record_is_json', 'as_in_storage_drops_nones', 'from_scratch', 'derivations'],
+         canaries=['canary.record_has_no_nones', 'canary.scratch_is_passive'], trusted=_G5_TRUSTED)
 def G5(vc):
     """
     For an arbitrary handler state s (all fields symbolic; purpose None / a causes.Reason member / a plain string; subrefs empty,
@@ -675,14 +681,30 @@ def G5(vc):
                       exactly the nine documented keys (progress.ProgressRecord);
       record_is_json  every value of r is None, a bool, an int, a string or a list of strings (nothing in-memory leaks into the record);
       as_in_storage_drops_nones   s.as_in_storage() == r without its None-valued keys (what Kubernetes keeps);
-      round_trip      s2 = from_storage(r) and s3 = from_storage(as_in_storage(s)) (Kubernetes dropped the nulls) both have
+      from_scratch    a new state is active, unfinished, never delayed (awakened at once), has 0 attempts, started now, the given
+                      purpose and no origin (so it is always stored);
+      derivations     as_active() / with_purpose(p) return a NEW state with active=True / purpose=p and every other field the same
+                      object; the receiver is not modified (the contract G3 assumes of them).
+    """
+    return _g5(vc, round_trip=False)
+
+
+@harness('G5r', targets=[f'{PROG}.HandlerState.for_storage', f'{PROG}.HandlerState.as_in_storage', f'{PROG}.HandlerState.from_storage'],
+         props=['C02', 'C16', 'C14'],
+         clauses=['round_trip', 'reload_is_stable'], canaries=['canary.never_finished'], trusted=_G5_TRUSTED)
+def G5r(vc):
+    """
+    The same arbitrary handler state s as in G5, composed with from_storage (G1):
+      round_trip      s2 = from_storage(s.for_storage()) and s3 = from_storage(s.as_in_storage()) (Kubernetes dropped the nulls) both have
                       finished/success/failure, retries (None -> 0), started, stopped, delayed, purpose, message and subrefs
                       (as a sorted list) equal to those of s, and are passive -- so a restarted operator sees what was recorded;
-      reload_is_stable   as_in_storage(s3) == as_in_storage(s): a loaded, unchanged state is equal to its origin (State.store, G6,
-                      then writes nothing for it);
-      from_scratch    a new state is active, unfinished, never delayed (awakened at once), has 0 attempts, started now, the given
-                      purpose and no origin (so it is always stored).
+      reload_is_stable   as_in_storage(s3) == as_in_storage(s) == s3's origin: a loaded, unchanged state is equal to what it was loaded
+                      from (State.store, G6, then writes nothing for it).
     """
+    return _g5(vc, round_trip=True)
+
+
+def _g5(vc, round_trip):
     from kopf._core.intents import causes
     from pyvc.stubs import Clock, SDt
     clock = Clock('loop.time')
@@ -690,7 +712,7 @@ def G5(vc):
     iso = IsoPair(vc)
     HS = load_hs5(vc, clock, iso)
     now = basetime.t + clock.now
-    if vc.nondet(2, 'for_storage & round trip | from_scratch') == 1:
+    if not round_trip and vc.nondet(2, 'for_storage | from_scratch') == 1:
         purpose = resolve(vc.fin('purpose', [None, causes.Reason.RESUME, 'update']))
         given = vc.nondet(2, 'purpose= given?') == 1
         s = HS.from_scratch(basetime=basetime, purpose=purpose) if given else HS.from_scratch(basetime=basetime)
@@ -699,41 +721,53 @@ def G5(vc):
         vc.ensure('from_scratch', s.purpose is (purpose if given else None))
         fin, aw = s.finished, s.awakened
         vc.ensure('from_scratch', And(Not(fin), aw))
+        vc.canary('canary.scratch_is_passive', s.active is False)
         return ('from_scratch', fin, aw)
     retries = vc.opt('s.retries', vc.int)
     if retries is not None:
         vc.assume(retries >= 0, 'recorded attempts are a count')
     purpose = resolve(vc.fin('s.purpose', [None, causes.Reason.CREATE, 'update']))
-    subrefs = resolve(vc.fin('s.subrefs', [(), [], ['h/a', 'h/b'], ('h/z', 'h/a', 'h/m')]))
+    subrefs = resolve(vc.fin('s.subrefs', [(), ('h/z', 'h/a', 'h/m')] if round_trip else [(), [], ['h/a', 'h/b'], ('h/z', 'h/a', 'h/m')]))
     message = vc.opt('s.message', vc.str)
+    origin = {'started': 'as-loaded'}
     s = HS(active=vc.bool('s.active'), basetime=basetime, started=SDt(vc.real('s.started')),
            stopped=vc.opt('s.stopped', lambda n: SDt(vc.real(n))), delayed=vc.opt('s.delayed', lambda n: SDt(vc.real(n))),
            purpose=purpose, retries=retries, success=vc.bool('s.success'), failure=vc.bool('s.failure'),
-           message=message, subrefs=subrefs, _origin=None)
+           message=message, subrefs=subrefs, _origin=origin)
     r = s.for_storage()
-    fmt = dict((id(t), x) for t, x in iso.formatted)
-
-    def formatted_from(value, source):
-        return value is None if source is None else (id(source) in fmt and value is fmt[id(source)])
-    keys = ('started', 'stopped', 'delayed', 'purpose', 'retries', 'success', 'failure', 'message', 'subrefs')
-    vc.ensure('record_fields', isinstance(r, dict) and sorted(r) == sorted(keys))
-    for k in ('started', 'stopped', 'delayed'):
-        vc.ensure('record_fields', formatted_from(r[k], getattr(s, k)))
-    vc.ensure('record_fields', r['purpose'] is None if purpose is None else (type(r['purpose']) is str and r['purpose'] == str(purpose)))
-    vc.ensure('record_fields', r['retries'] is None if retries is None else Eq(r['retries'], retries))
-    vc.ensure('record_fields', And(Eq(r['success'], s.success), Eq(r['failure'], s.failure)))
-    vc.ensure('record_fields', r['message'] is None if message is None else Eq(r['message'], message))
-    vc.ensure('record_fields', r['subrefs'] is None if not subrefs else
-              (type(r['subrefs']) is list and r['subrefs'] == sorted(subrefs) and r['subrefs'] is not subrefs))
-
-    def is_json(v):
-        return v is None or isinstance(v, (SBool, SNum, SStr, bool, int, str)) \
-            or (type(v) is list and all(type(x) is str for x in v))
-    vc.ensure('record_is_json', all(is_json(v) for v in r.values()))
     pure = s.as_in_storage()
-    vc.ensure('as_in_storage_drops_nones', isinstance(pure, dict) and list(pure) == [k for k in r if r[k] is not None]
-              and all(pure[k] is r[k] or pure[k] == r[k] for k in pure))
-    vc.canary('canary.record_has_no_nones', list(pure) == list(r))
+    if not round_trip:
+        # ---- the two derivations State relies on (G3 uses them by this contract)
+        import dataclasses
+        names = [f.name for f in dataclasses.fields(s)]
+        before = {n: getattr(s, n) for n in names}
+        sa, sp = s.as_active(), s.with_purpose('resume')
+        vc.ensure('derivations', type(sa) is HS and sa is not s and sa.active is True and all(getattr(sa, n) is before[n] for n in names if n != 'active'))
+        vc.ensure('derivations', type(sp) is HS and sp is not s and sp.purpose == 'resume' and all(getattr(sp, n) is before[n] for n in names if n != 'purpose'))
+        vc.ensure('derivations', all(getattr(s, n) is before[n] for n in names))
+        fmt = dict((id(t), x) for t, x in iso.formatted)
+
+        def formatted_from(value, source):
+            return value is None if source is None else (id(source) in fmt and value is fmt[id(source)])
+        keys = ('started', 'stopped', 'delayed', 'purpose', 'retries', 'success', 'failure', 'message', 'subrefs')
+        vc.ensure('record_fields', isinstance(r, dict) and sorted(r) == sorted(keys))
+        for k in ('started', 'stopped', 'delayed'):
+            vc.ensure('record_fields', formatted_from(r[k], getattr(s, k)))
+        vc.ensure('record_fields', r['purpose'] is None if purpose is None else (type(r['purpose']) is str and r['purpose'] == str(purpose)))
+        vc.ensure('record_fields', r['retries'] is None if retries is None else Eq(r['retries'], retries))
+        vc.ensure('record_fields', And(Eq(r['success'], s.success), Eq(r['failure'], s.failure)))
+        vc.ensure('record_fields', r['message'] is None if message is None else Eq(r['message'], message))
+        vc.ensure('record_fields', r['subrefs'] is None if not subrefs else
+                  (type(r['subrefs']) is list and r['subrefs'] == sorted(subrefs) and r['subrefs'] is not subrefs))
+
+        def is_json(v):
+            return v is None or isinstance(v, (SBool, SNum, SStr, bool, int, str)) \
+                or (type(v) is list and all(type(x) is str for x in v))
+        vc.ensure('record_is_json', all(is_json(v) for v in r.values()))
+        vc.ensure('as_in_storage_drops_nones', isinstance(pure, dict) and list(pure) == [k for k in r if r[k] is not None]
+                  and all(pure[k] is r[k] or pure[k] == r[k] for k in pure))
+        vc.canary('canary.record_has_no_nones', list(pure) == list(r))
+        return ('for_storage', sorted(pure))
     for label, rec in (('full', r), ('nulls-dropped', pure)):
         s2 = HS.from_storage(rec, basetime=basetime)
         vc.ensure('round_trip', And(Iff(_truthy(s2.success), s.success), Iff(_truthy(s2.failure), s.failure),
